@@ -70,11 +70,15 @@
                                           — multi-level stabilisation: stable block = l, survivors read what they read
                                             before the call, persisted accounts (heap Collect + batch write, iterated) =
                                             the view l had before the call
-      NOT covered by (d): the genesis bootstrap (`stable = none`: blocks of height 0, dye 0 = the cache dye; the abstract
-      machine starts with a stable block), Put through a committed label, Puts outside `PutGuardU` (late writes of a
+      NOT covered by (d): Put through a committed label, Puts outside `PutGuardU` (late writes of a
       block that already has children: Go mutates nodes shared with the children in place — no theorem, and the
-      harness oracle is off for those 'wild' cases), `anc`/`iterate`/`isExist` (tree queries, correspondence only),
-      the order of the dropped-block list.  Lemma files: Lemmas/CowHeap*.lean.
+      harness oracle is off for those 'wild' cases; the `putsites` op line pins the callers of Put), the ORDER of the
+      dropped-block list / of the iteration.  Lemma files: Lemmas/CowHeap*.lean.
+
+  (e) THE TREE QUERIES (`isExist`, `iterate`, `unconfirmByHeight`, the dropped set of one commit iteration) against the
+      abstract parent map: LemoProofs/C09Tree.lean.
+  (f) THE GENESIS BOOTSTRAP (`stable = none`: blocks of height 0, dye 0 = the cache dye) from the EMPTY database through the
+      first `SetStableBlock` to `URel`: LemoProofs/C09Boot.lean + Lemmas/CowHeapGenesis.lean.
 -/
 import LemoProofs.Lemmas.CowSpecPrune
 import LemoProofs.Lemmas.CowHeapTop
